@@ -363,6 +363,8 @@ def abstract_run(prog, max_iter=60000):
             if op in ("return", "err"):
                 if op == "return":
                     popn(1, "i")
+                    if is_main and (st or borrow):
+                        add("exit_height", "main routine returns with %d extra value(s) on the stack at pc=%d" % (len(st), pc), I.line)
                 continue
             if op == "retsub":
                 if proto is not None:
